@@ -12,6 +12,8 @@ CORRESPONDENCE recording wrappers around emd.sift.get_next_imf / interp_envelope
                every run is compared exactly with the model's calls (hashes of Options.calls_h under vm_compute; the
                records themselves, Options.calls_c, are fetched for a report).  Ensembles take the sign-flipped second
                sift when nprocesses > 1; mask_sift chooses its first mask by zero crossings / instantaneous frequency.
+               On the get_func route a share of the runs asks the configuration for its partial once BEFORE the options are
+               supplied (slash key paths, nested indexing, whole-bundle assignment) and runs the partial it returns afterwards.
                Every run is a SEQUENCE on configuration objects: a decoy SiftConfig of the same variant is configured with
                different values for every option, then the configuration under test, then two more decoys (same and another
                variant), and only then is the configuration under test run; np.pad dictionaries are put into a SiftConfig
@@ -370,7 +372,9 @@ def set_option(cfg, b, k, v, style):
     (the np.pad dictionaries) is edited in place through three-level key paths - every key set, keys it should not have
     deleted - which is how a user changes one entry of the dictionary get_config put there."""
     cur = cfg[b].get(k) if isinstance(cfg[b], dict) else None
-    if style == 'path' and isinstance(v, dict) and isinstance(cur, dict):
+    if style == 'index':        # nested indexing: cfg['bundle']['key'] = value
+        cfg[b][k] = v
+    elif style == 'path' and isinstance(v, dict) and isinstance(cur, dict):
         for kk in list(cur):
             if kk not in v:
                 del cfg['%s/%s/%s' % (b, k, kk)]
@@ -380,11 +384,22 @@ def set_option(cfg, b, k, v, style):
         cfg[b + '/' + k] = v
 
 
-def apply_config(S, name, base, u, style='assign'):
+def apply_config(S, name, base, u, style='assign', history='fresh'):
+    """history 'early': the configuration is asked for its partial once (result thrown away) BEFORE the options are
+    supplied; whoever asks again afterwards must get a partial that knows them.  style 'bundle': each bundle replaced by
+    a merged dictionary, cfg['bundle'] = {...}; 'index': nested indexing; 'assign' / 'path': slash key paths."""
     cfg = S.get_config(name)
     for k, v in base.items():
         cfg[k] = v
+    if history == 'early':
+        cfg.get_func()
     for b in BUNDLES:
+        if style == 'bundle':
+            if u[b]:
+                merged = dict(cfg[b])
+                merged.update(u[b])
+                cfg[b] = merged
+            continue
         for k, v in (u[b] or {}).items():
             set_option(cfg, b, k, v, style)
     return cfg
@@ -431,14 +446,14 @@ def given(u):
     return {b: u[b] for b in BUNDLES if u[b] is not None}
 
 
-def call_variant(S, variant, route, nproc, u, sig, style='assign', decoys=True):
+def call_variant(S, variant, route, nproc, u, sig, style='assign', decoys=True, history='fresh'):
     """The documented ways of handing options to a variant.  Sequence: a decoy configuration of the same variant is made
     and configured, then the configuration under test, then a second decoy of the same variant and one of another variant
     (all with different values for every option); only then is the configuration under test run."""
     base = base_kwargs(variant, nproc, sig)
     name = {'sift_second_layer': 'sift', 'mask_sift_second_layer': 'mask_sift'}.get(variant, variant)
     keep = [make_decoy(S, name, u)] if decoys else []
-    cfg = apply_config(S, name, base, u, style) if route != 'keyword' else None
+    cfg = apply_config(S, name, base, u, style, history) if route != 'keyword' else None
     if decoys:
         keep += [make_decoy(S, name, u), make_decoy(S, other_variant(name), u)]
     try:
@@ -556,7 +571,7 @@ def run_case(case, workdir):
         try:
             with common.time_limit(case.get('timeout', 30)):
                 out = call_variant(S, case['variant'], case['route'], case['nproc'], u, case['signal'],
-                                   case.get('style', 'assign'), case.get('decoys', True))
+                                   case.get('style', 'assign'), case.get('decoys', True), case.get('history', 'fresh'))
         except common.Timeout:
             res['status'] = 'timeout'
         except Exception as e:  # noqa
@@ -632,13 +647,21 @@ def oracle(case, res):
         for k, v in (case['u'][b][1] if case['u'][b][0] == 'D' else []):
             for code, kw, inp, inw in by_stage.get(st, []):
                 if kw.get(k) != v:
-                    stolen = b in decoy and k in decoy[b] and kw.get(k) == canon(decoy[b][k])
+                    # (the decoy's parabolic_extrema=False is also the default: seeing it says nothing about where it came from)
+                    stolen = b in decoy and k in decoy[b] and kw.get(k) == canon(decoy[b][k]) and decoy[b][k] is not False
                     for where in ([False] if inp else []) + ([True] if inw else []):
                         if stolen:
                             fails.append(('emd/sift.py:get_config', '%s[%r] set on one SiftConfig (%s route, %s) was replaced at %s by the '
                                           'value set afterwards on a DIFFERENT SiftConfig object that was never run'
                                           % (b, k, case['route'], case['variant'], SNAME[code]),
                                           plain(kw.get(k)), plain(v)))
+                        elif case.get('history') == 'early' and case['route'] == 'partial':
+                            fails.append(('emd/sift.py:SiftConfig.get_func', '%s[%r] set on a SiftConfig (%s) after get_func() had been called '
+                                          'once did not reach %s through the partial that get_func() returned afterwards (%s)'
+                                          % (b, k, {'assign': 'slash key path', 'path': 'three-level key paths', 'index': 'nested indexing',
+                                                    'bundle': 'whole-bundle assignment'}.get(case.get('style'), case.get('style')),
+                                             SNAME[code], case['variant']),
+                                          plain(kw.get(k, ['s', '<absent>'])), plain(v)))
                         else:
                             fails.append((site_of(case, code, kw, where), '%s[%r] supplied to %s by the %s route did not reach %s%s'
                                           % (b, k, case['variant'], case['route'], SNAME[code],
@@ -891,26 +914,41 @@ def make_cases(ctx):
         for v in VARIANTS:
             for oname, u in opts:
                 nested = any(isinstance(x, dict) for b in BUNDLES for x in (u[b] or {}).values())
+                def add(r, style, npc, history='fresh'):
+                    cases.append(dict(id='%d' % len(cases), variant=v, route=r, nproc=npc, signal=sig, oname=oname, style=style,
+                                      history=history, decoys=True, u={b: canon(u[b]) for b in BUNDLES}))
                 for r in ROUTES:
+                    # get_func histories (not for mask_sift_second_layer, which has no get_func): with one process the partial is
+                    # asked for once BEFORE the options are supplied and again afterwards; otherwise the config is filled first
+                    early = r == 'partial' and v != 'mask_sift_second_layer'
                     # a dictionary-valued option can be put into a SiftConfig whole or entry by entry: both are run
                     for style in (('assign', 'path') if nested and r != 'keyword' else ('assign',)):
                         for npc in (procs if v in POOLED else (1,)):
-                            cases.append(dict(id='%d' % len(cases), variant=v, route=r, nproc=npc, signal=sig, oname=oname,
-                                              style=style, decoys=True, u={b: canon(u[b]) for b in BUNDLES}))
+                            add(r, style, npc, 'early' if early and npc == 1 else 'fresh')
+                    if early:
+                        add(r, 'index', 1, 'early')
+                        if v not in POOLED:
+                            add(r, 'assign', 1, 'fresh')
+                        if oname == 'all':
+                            add(r, 'bundle', 1, 'early')
     return cases, dict(variants=VARIANTS, option_cases=[o for o, _ in opts], routes=ROUTES, nprocesses=list(procs),
                        signals=signals, samples=N)
 
 
 def slim(case):
-    out = {k: case[k] for k in ('variant', 'route', 'nproc', 'signal', 'oname', 'u', 'style', 'decoys') if k in case}
+    out = {k: case[k] for k in ('variant', 'route', 'nproc', 'signal', 'oname', 'u', 'style', 'history', 'decoys') if k in case}
     u = {b: build(case['u'][b]) for b in BUNDLES}
     name = {'sift_second_layer': 'sift', 'mask_sift_second_layer': 'mask_sift'}.get(case['variant'], case['variant'])
     out['sequence'] = ['D0 = get_config(%r); set every option of D0 to %r (np.pad dicts entry by entry)' % (name, decoy_options(u)),
-                       'A = get_config(%r); set on A: %r (dictionary options: %s)'
-                       % (name, {b: u[b] for b in BUNDLES if u[b]}, 'entry by entry through bundle/option/key paths'
-                          if case.get('style') == 'path' else 'assigned whole'),
+                       'A = get_config(%r); %sset on A: %r (%s)'
+                       % (name, 'A.get_func() called once and thrown away; THEN ' if case.get('history') == 'early' else '',
+                          {b: u[b] for b in BUNDLES if u[b]},
+                          {'path': 'slash key paths, dictionary options entry by entry through bundle/option/key paths',
+                           'index': "nested indexing A['bundle']['key'] = value", 'bundle': "A['bundle'] = merged dictionary"}
+                          .get(case.get('style'), "slash key paths A['bundle/key'] = value")),
                        'D1 = get_config(%r), D2 = get_config(%r); configured like D0' % (name, other_variant(name)),
-                       'run %s with A by the %s route (keyword route: the dictionaries directly, A unused)' % (case['variant'], case['route'])]
+                       'run %s with A by the %s route (keyword: the dictionaries directly, A unused; partial: the result of A.get_func() '
+                       'asked for now)' % (case['variant'], case['route'])]
     return out
 
 
@@ -941,7 +979,7 @@ def run(ctx):
     viol, breaks = {}, []
     for c in cases:
         r = results[c['id']]
-        key = (c['variant'], c['route'], c['nproc'], c['oname'], c['signal'], c.get('style'))
+        key = (c['variant'], c['route'], c['nproc'], c['oname'], c['signal'], c.get('style'), c.get('history'))
         if r['status'] == 'timeout':
             ctx.discarded += 1
             ctx.notes.append('timeout (discarded): %s' % (key,))
